@@ -45,7 +45,9 @@ T == << I(183, 0, 0, 0, 0),        \*  1 mov64 r0, 0
         I(255, 0, 0, 0, 0),        \* 27 unknown opcode
         I(LDDW, 11, 0, 0, 7),      \* 28 lddw r11 (no such register; the second slot's register byte is 0)
         I(165, 0, 0, 1, 0),        \* 29 jlt r0, 0, +1   (the "less than" jumps sit after call / exit in the opcode table)
-        I(221, 0, 1, -2, 0) >>     \* 30 jsle r0, r1, -2
+        I(221, 0, 1, -2, 0),       \* 30 jsle r0, r1, -2
+        I(22, 0, 0, 1, 0),         \* 31 jeq32 r0, 0, +1  (twice in a row: the second copy's target is one slot further)
+        I(LE, 0, 0, 0, 48) >>      \* 32 le48 r0 (a multiple of 16 between 16 and 64 that is no width)
 
 Core == {1, 2, 3, 4, 5, 7, 8, 10, 11, 12, 13, 14, 15, 16, 21, 25}
 Idx == IF Alphabet = "full" THEN 1..Len(T) ELSE Core
